@@ -4,9 +4,8 @@
    BlifSpec.v (WF, denote, supported, equiv).
 
    Status of the three clauses on the code as it is in /repo:
-     well-formed       proved for every accepted document (C18_wf_core);
-     self-contained    proved for documents without .blackbox (C18_wf), REFUTED with .blackbox
-                       (C18_wf_refuted: make_blackbox detaches the cables, the pins stay on them);
+     well-formed and   proved for every accepted document, at full strength (C18_wf);
+     self-contained
      reads faithfully  C18_sound_full is the statement; it is refuted outside the supported subset
                        (C18_sound_refuted_*: statement lines the reader silently skips);
      write-then-read   C18_full is the statement; REFUTED (C18_roundtrip_refuted: the written file
@@ -15,31 +14,26 @@ From Coq Require Import List Permutation.
 From SV Require Import Base.Base Fmt.Blif Fmt.BlifRead Fmt.BlifWrite Fmt.BlifSpec
   Proofs.BlifWF Proofs.BlifExec Proofs.BlifC18.
 
-(* ---- well-formedness ---- *)
-(* every accepted document (no restriction at all): model names distinct; every pin on a wire names a
-   declared port bit of the model / of the instanced model; a pin is on one wire, once; every
-   instance mirrors its definition; port and cable names distinct *)
-Theorem C18_wf_core : forall d n, elab d = Ok n -> WFcore n.
-Proof. exact wf_core. Qed.
-Print Assumptions C18_wf_core.
-
-(* with self-containedness, for documents without .blackbox *)
-Theorem C18_wf : forall d n, no_blackbox d = true -> elab d = Ok n -> WF n.
-Proof. exact wf_noblackbox. Qed.
+(* ---- well-formedness and self-containedness ---- *)
+(* every accepted document, no restriction: model names distinct; every pin on a wire names a declared
+   port bit of the model / of the instanced model; a pin is on one wire, once; every instance mirrors
+   its definition; port and cable names distinct; no pin sits on a cable outside its model.
+   (Before repair ececd91 of make_blackbox the last clause was refuted by every declared black box.) *)
+Theorem C18_wf : forall d n, elab d = Ok n -> WF n.
+Proof. exact wf_all. Qed.
 Print Assumptions C18_wf.
 
-(* its hypotheses hold for a flat design with buses, unconn, .names, .latch, instance data *)
-Example C18_wf_example : exists n, no_blackbox doc_flat = true /\ elab doc_flat = Ok n /\ WF n /\
+(* the hypothesis holds for a flat design with buses, unconn, .names, .latch, instance data ... *)
+Example C18_wf_example : exists n, elab doc_flat = Ok n /\ WF n /\
   length (b_models n) = 5 /\ exists m, find_model nm_top (b_models n) = Some m /\ length (m_insts m) = 4.
-Proof. exact wf_noblackbox_example. Qed.
+Proof. exact wf_example. Qed.
 Print Assumptions C18_wf_example.
 
-(* the clause at full strength, and its refutation by a supported document with a black box *)
-Definition C18_wf_full : Prop := forall d n, elab d = Ok n -> WF n.
-
-Theorem C18_wf_refuted : exists d n, supported d = true /\ elab d = Ok n /\ ~ WF n.
-Proof. exact wf_refuted_by_blackbox. Qed.
-Print Assumptions C18_wf_refuted.
+(* ... and for a design with a declared black box, which ends up as a leaf primitive *)
+Example C18_wf_example_blackbox : exists n m, elab doc_blackbox = Ok n /\ WF n /\
+  find_model i_ref_inv (b_models n) = Some m /\ m_lib m = LPrim /\ m_cables m = nil /\ length (m_ports m) = 2.
+Proof. exact wf_example_blackbox. Qed.
+Print Assumptions C18_wf_example_blackbox.
 
 (* ---- the reader builds what the file says ---- *)
 Definition C18_sound_full : Prop := forall d n, supported d = true -> elab d = Ok n -> denote d n.
